@@ -95,13 +95,18 @@ def tx_shape(tx):
 
 def compact_positions(tx):
     """Offsets (in tx.serialize()) and values of every CompactSize field, by re-walking the encoding."""
-    b = tx.serialize()
+    b = wire_of(tx)
     s = io.BytesIO(b)
     pos = []
 
     def rc():
+        # own reader: the harness must not depend on the code under test for its bookkeeping
         p = s.tell()
-        v = compact.read_from(s)
+        c = s.read(1)[0]
+        if c < 0xFD:
+            v = c
+        else:
+            v = int.from_bytes(s.read({0xFD: 2, 0xFE: 4, 0xFF: 8}[c]), "little")
         pos.append((p, s.tell() - p, v))
         return v
 
@@ -127,6 +132,23 @@ def compact_positions(tx):
                 l = rc()
                 s.read(l)
     return b, pos
+
+
+def wire_of(tx, witness=True):
+    """Bitcoin wire encoding of an embit Transaction used as a field container (own encoder)"""
+    seg = witness and any(len(i.witness.items) > 0 for i in tx.vin)
+    b = tx.version.to_bytes(4, "little") + (b"\x00\x01" if seg else b"") + cs(len(tx.vin))
+    for i in tx.vin:
+        d = i.script_sig.data
+        b += i.txid[::-1] + i.vout.to_bytes(4, "little") + cs(len(d)) + d + i.sequence.to_bytes(4, "little")
+    b += cs(len(tx.vout))
+    for o in tx.vout:
+        d = o.script_pubkey.data
+        b += o.value.to_bytes(8, "little") + cs(len(d)) + d
+    if seg:
+        for i in tx.vin:
+            b += cs(len(i.witness.items)) + b"".join(cs(len(w)) + w for w in i.witness.items)
+    return b + tx.locktime.to_bytes(4, "little")
 
 
 def noncanonical(v, width):
@@ -156,8 +178,7 @@ def mutations(rng, tx, every_offset=False, budget=40):
             if width + 1 > w:
                 yield ("noncanonical", b[:p] + noncanonical(v, width) + b[p + w:])
     # superfluous witness section: legacy body wrapped in marker/flag with all-empty witnesses
-    legacy = Transaction(tx.version, [TransactionInput(i.txid, i.vout, i.script_sig, i.sequence) for i in tx.vin],
-                         tx.vout, tx.locktime).serialize()
+    legacy = wire_of(tx, witness=False)
     yield ("superfluous-witness", legacy[:4] + b"\x00\x01" + legacy[4:-4] + b"\x00" * len(tx.vin) + legacy[-4:])
     yield ("bad-flag", legacy[:4] + b"\x00\x02" + legacy[4:-4] + b"\x00" * len(tx.vin) + legacy[-4:])
     yield ("zero-inputs", legacy[:4] + b"\x00" + legacy[-4:])
@@ -202,7 +223,7 @@ def raw_tx(version, vin, vout, locktime):
     return b + locktime.to_bytes(4, "little")
 
 
-def build_psbt(tx, version, in_maps=None, out_maps=None, global_extra=(), explicit_seq=True):
+def build_psbt(tx, version, in_maps=None, out_maps=None, global_extra=(), explicit_seq=True, rng=None):
     """PSBT bytes for an unsigned embit Transaction `tx` (used only as a field container).
     in_maps/out_maps: per scope list of (key, value) pairs to include."""
     nin, nout = len(tx.vin), len(tx.vout)
@@ -222,17 +243,28 @@ def build_psbt(tx, version, in_maps=None, out_maps=None, global_extra=(), explic
         b += kv(k, v)
     b += b"\x00"
     for i, m in zip(tx.vin, in_maps):
-        for (k, v) in m:
-            b += kv(k, v)
+        m = list(m)
         if version == 2:
-            b += kv(b"\x0e", i.txid[::-1]) + kv(b"\x0f", i.vout.to_bytes(4, "little"))
+            f = [(b"\x0e", i.txid[::-1]), (b"\x0f", i.vout.to_bytes(4, "little"))]
             if explicit_seq or i.sequence != 0xFFFFFFFF:
-                b += kv(b"\x10", i.sequence.to_bytes(4, "little"))
-        b += b"\x00"
+                f.append((b"\x10", i.sequence.to_bytes(4, "little")))
+            if rng is not None and rng.random() < 0.6:
+                # key order inside a scope is free: interleave the transaction fields anywhere, in any order
+                rng.shuffle(f)
+                for x in f:
+                    m.insert(rng.randrange(len(m) + 1), x)
+            else:
+                m += f
+        b += b"".join(kv(k, v) for k, v in m) + b"\x00"
     for o, m in zip(tx.vout, out_maps):
-        for (k, v) in m:
-            b += kv(k, v)
+        m = list(m)
         if version == 2:
-            b += kv(b"\x03", o.value.to_bytes(8, "little")) + kv(b"\x04", o.script_pubkey.data)
-        b += b"\x00"
+            f = [(b"\x03", o.value.to_bytes(8, "little")), (b"\x04", o.script_pubkey.data)]
+            if rng is not None and rng.random() < 0.6:
+                rng.shuffle(f)
+                for x in f:
+                    m.insert(rng.randrange(len(m) + 1), x)
+            else:
+                m += f
+        b += b"".join(kv(k, v) for k, v in m) + b"\x00"
     return b
